@@ -9,6 +9,7 @@ import (
 	"os"
 	"sort"
 	"strings"
+	"time"
 
 	"github.com/awslabs/ar-go-tools/analysis/config"
 	"github.com/awslabs/ar-go-tools/analysis/defers"
@@ -30,6 +31,7 @@ func stackStr(s defers.Stack) string {
 func main() {
 	out := flag.String("o", "-", "output file")
 	onlyDefer := flag.Bool("only-defer", false, "only dump functions containing a defer or more than one block with rundefers")
+	limit := flag.Int("limit", 60, "seconds allowed for the defer analysis of one function")
 	pos := flag.Bool("pos", false, "also print source lines of defer/return instructions (P lines)")
 	flag.Parse()
 	w := bufio.NewWriter(os.Stdout)
@@ -65,7 +67,17 @@ func main() {
 			if *onlyDefer && !hasDefer {
 				continue
 			}
-			res := defers.AnalyzeFunction(fn, lg)
+			// watchdog: the property demands termination; a diverging analysis is reported with the function as input
+			resCh := make(chan defers.Results, 1)
+			go func() { resCh <- defers.AnalyzeFunction(fn, lg) }()
+			var res defers.Results
+			select {
+			case res = <-resCh:
+			case <-time.After(time.Duration(*limit) * time.Second):
+				w.Flush()
+				fmt.Fprintf(os.Stderr, "NONTERMINATION %s %s\n", dir, strings.ReplaceAll(fn.String(), " ", "_"))
+				os.Exit(3)
+			}
 			id++
 			fmt.Fprintf(w, "F %d %s\n", id, strings.ReplaceAll(fn.String(), " ", "_"))
 			fmt.Fprintf(w, "N %d\n", len(fn.Blocks))
